@@ -56,8 +56,8 @@ Inductive res (A : Type) :=
 | ROk (a : A)
 | RPanic (v : value)        (* a Go panic propagating *)
 | RFuel                     (* model ran out of fuel *)
-| RMiss.                    (* oracle entry missing / construct not modelled *)
-Arguments ROk {A} a. Arguments RPanic {A} v. Arguments RFuel {A}. Arguments RMiss {A}.
+| RMiss (why : nat).        (* oracle entry missing (0) / construct not modelled (code) *)
+Arguments ROk {A} a. Arguments RPanic {A} v. Arguments RFuel {A}. Arguments RMiss {A} why.
 
 Definition M (A : Type) := pst -> res A * pst.
 Definition ret {A} (a : A) : M A := fun s => (ROk a, s).
@@ -66,14 +66,15 @@ Definition bind {A B} (m : M A) (f : A -> M B) : M B :=
            | (ROk a, s1) => f a s1
            | (RPanic v, s1) => (RPanic v, s1)
            | (RFuel, s1) => (RFuel, s1)
-           | (RMiss, s1) => (RMiss, s1)
+           | (RMiss w, s1) => (RMiss w, s1)
            end.
 Notation "x <- m ;; k" := (bind m (fun x => k)) (at level 61, m at next level, right associativity).
 Notation "m ;;; k" := (bind m (fun _ => k)) (at level 61, right associativity).
 Definition get : M pst := fun s => (ROk s, s).
 Definition modify (f : pst -> pst) : M unit := fun s => (ROk tt, f s).
 Definition panic {A} (v : value) : M A := fun s => (RPanic v, s).
-Definition miss {A} : M A := fun s => (RMiss, s).
+Definition missc {A} (w : nat) : M A := fun s => (RMiss w, s).
+Definition miss {A} : M A := missc 0.
 Definition of_opt {A} (o : option A) : M A := match o with Some a => ret a | None => miss end.
 
 (* One Buffer method call. *)
@@ -131,7 +132,7 @@ Definition bracket {A} (start : M restorer) (body : M A) : M A :=
       let '(_, s3) := restore r s2 in (o, s3)
     | (RPanic v, s1) => (RPanic v, s1)
     | (RFuel, s1) => (RFuel, s1)
-    | (RMiss, s1) => (RMiss, s1)
+    | (RMiss w, s1) => (RMiss w, s1)
     end.
 Definition bracket_if {A} (c : bool) (start : M restorer) (body : M A) : M A :=
   if c then bracket start body else body.
@@ -247,8 +248,8 @@ Definition fmtPointer (rec : recT) (env : env) (v : value) (verb : Z) : M unit :
     else if verb =? 112 then f <- getf ;; fmt0x64 u (negb (sharp (fl f)))
     else if isv verb "bodxX" then fmtInteger rec env u false verb
     else rec (CBadVerb verb) ;;; ret tt
-  | VSlice _ _ _ | VMap _ _ _ | VBytes _ _ _ => miss      (* address not modelled *)
-  | VUser _ _ _ (VPtr _ _ _) _ => miss
+  | VSlice _ _ _ | VMap _ _ _ | VBytes _ _ _ | VRB _ => missc 1      (* address not modelled *)
+  | VUser _ _ _ (VPtr _ _ _) _ => missc 1
   | _ => rec (CBadVerb verb) ;;; ret tt
   end.
 
@@ -344,7 +345,7 @@ Definition handleMethods (rec : recT) (env : env) (verb0 : Z) : M bool :=
               catch_panic rec a verb "String" (str <- user_string a ;; fmtString rec env str verb) ;;; ret true
             else ret false
           else ret false
-      | VSafe _ _ | VUnsafe _ => miss     (* wrapper Format through the standard fmt: not modelled *)
+      | VSafe _ _ | VUnsafe _ => missc 2     (* wrapper Format through the standard fmt: not modelled *)
       | _ => ret false
       end in
     if custom then
@@ -366,10 +367,9 @@ Definition handleMethods (rec : recT) (env : env) (verb0 : Z) : M bool :=
       | VRS _ | VRB _ =>
         (* RedactableString/Bytes.SafeFormat: sp.Print(s) *)
         catch_panic rec a verb "SafeFormat" (run_acts [APrint [a]]) ;;; ret true
-      | VSafe _ msg =>
-        if isv verb "vsxXq" then
-          catch_panic rec a verb "SafeMessager" (bracket start_safe_ovr (fmtString rec env msg verb)) ;;; ret true
-        else std
+      | VSafe v _ =>
+        (* case w.SafeWrapper: the inner value is printed like a top-level operand *)
+        bracket start_safe_ovr (rec (CPrintArg v verb) ;;; ret tt) ;;; ret true
       | _ => std
       end
     else std
@@ -485,7 +485,7 @@ Fixpoint print_kind (fuel : nat) (rec : recT) (env : env) (value : value) (verb 
     | O => fun s => (RFuel, s)
     | S k => print_kind k rec env repr verb depth ci
     end
-  | VSafe _ _ | VUnsafe _ | VRS _ | VRB _ => miss   (* handled by handleSpecialValues / printArg before *)
+  | VSafe _ _ | VUnsafe _ | VRS _ | VRB _ => missc 3   (* handled by handleSpecialValues / printArg before *)
   end.
 
 (* value.Field(0) of a wrapper: a slot of type interface{} *)
@@ -500,7 +500,7 @@ Definition printValue (rec : recT) (env : env) (value : value) (verb : Z) (depth
   match depth with
   | O =>
     match value with
-    | VSafe _ _ | VUnsafe _ | VRS _ | VRB _ => miss
+    | VSafe _ _ | VUnsafe _ | VRS _ | VRB _ => missc 3
     | _ => kind_part
     end
   | S _ =>
@@ -600,7 +600,7 @@ Definition nested (rec : recT) (c : call) : M unit :=
       | ROk _ => ROk tt
       | RPanic v => RPanic v
       | RFuel => RFuel
-      | RMiss => RMiss
+      | RMiss w => RMiss w
       end, s'')).
 
 Definition run_action (rec : recT) (env : env) (self : value) (verb : Z) (a : action) : M unit :=
